@@ -5,7 +5,7 @@ set -u
 P=$1; N=$2; shift 2
 L=/tmp/lanes/$N
 rm -rf $L; mkdir -p $L
-git -C /repo worktree add -q --detach $L/repo HEAD || exit 2
+git -C /repo worktree prune; git -C /repo worktree add -q --detach $L/repo HEAD || exit 2
 if [ "$P" != "-" ]; then git -C $L/repo apply "$(realpath $P)" || { echo "$N PATCH DOES NOT APPLY"; git -C /repo worktree remove --force $L/repo; exit 2; }; fi
 rsync -a --exclude .git --exclude replays --exclude evidence ${VERIF_SRC:-/verif}/ $L/verif/
 cd $L/verif
